@@ -17,7 +17,7 @@ FILES = {
     "cocoasm/operands.py": ["C01", "C12", "C04", "C05", "C03", "C02", "C13"],
     "cocoasm/statement.py": ["C01", "C03", "C12", "C05", "C04", "C02", "C13", "C18", "C19"],
     "cocoasm/program.py": ["C02", "C03", "C13", "C19", "C18", "C17", "C01"],
-    "cocoasm/instruction.py": ["C01", "C12", "C05"],
+    "cocoasm/instruction.py": ["C01", "C03", "C12", "C02", "C05"],
     "cocoasm/virtualfiles/cassette.py": ["C06", "C14", "C09", "C11", "C16", "C10"],
     "cocoasm/virtualfiles/disk.py": ["C07", "C08", "C15", "C09", "C16", "C11", "C10"],
     "cocoasm/virtualfiles/virtual_file.py": ["C10", "C09", "C11", "C16"],
@@ -148,7 +148,8 @@ def run(J, maxn, tests_only=False, max_checks=99):
     results = json.load(open(rp)) if os.path.exists(rp) else {}
     q = queue.Queue()
     for c in data["cands"][:maxn]:
-        if c["id"] not in results or (not tests_only and results[c["id"]]["status"] == "passes-repo-tests"):
+        if c["id"] not in results or (not tests_only and results[c["id"]]["status"] == "passes-repo-tests") or \
+                (not tests_only and results[c["id"]]["status"] == "survived" and any(results[c["id"]].get("checks", {}).get(p, 2) == 2 for p in FILES[c["file"]][:max_checks])):
             q.put(c)
     lock = threading.Lock()
 
@@ -167,7 +168,7 @@ def run(J, maxn, tests_only=False, max_checks=99):
                 except Exception as e:
                     done = None
                 r = {"file": c["file"], "kind": c["kind"], "change": done}
-                known_pass = results.get(c["id"], {}).get("status") == "passes-repo-tests"
+                known_pass = results.get(c["id"], {}).get("status") in ("passes-repo-tests", "survived")
                 if not done or done[1] == done[2]:
                     r["status"] = "no-change"
                 else:
@@ -177,10 +178,12 @@ def run(J, maxn, tests_only=False, max_checks=99):
                     else:
                         r["status"] = "survived"
                         r["checks"] = {}
-                        for p in ([] if tests_only else FILES[c["file"]][:max_checks]):
+                        prev = results.get(c["id"], {}).get("checks", {})
+                        r["checks"] = dict(prev)
+                        for p in ([] if tests_only else [x for x in FILES[c["file"]][:max_checks] if prev.get(x, 2) == 2]):
                             log = os.path.join(OUT, "%s_%s.log" % (c["id"], p))
                             rr = subprocess.run([os.path.join(V, "check"), p, "--tier", "quick"], stdout=open(log, "w"), stderr=subprocess.STDOUT,
-                                                env=dict(os.environ, VERIF_REPO=wt), cwd=V)
+                                                env=dict(os.environ, VERIF_REPO=wt, VERIF_FAILFAST="1"), cwd=V)
                             r["checks"][p] = rr.returncode
                             if rr.returncode == 1:
                                 r["status"] = "caught"
